@@ -179,7 +179,10 @@ static int cif_map_set_item(cif_map_t *map, const UChar *key, cif_value_tp *valu
 
                     if (key_orig != item->key_orig) {
                         assert(map->is_standalone != 0);
-                        free(item->key_orig);
+                        if (item->key_orig != item->key) {
+                            /* the original key may be an alias of the normalized key, which must be kept */
+                            free(item->key_orig);
+                        }
                         item->key_orig = key_orig;
                     }
 
